@@ -50,9 +50,12 @@ static inline _Bool wmit_ne(WMIt a, WMIt b) { __CPROVER_assert(a.m == b.m, "map 
 static inline WPair *wmit_deref(WMIt it) { __CPROVER_assert(it.pos == 0 || it.pos == 1, "map iterator is dereferenceable"); return it.pos == 0 ? &it.m->w : &g_anonP; }
 #define WMIT_DEREF(it) wmit_deref(it)
 /* whole-map copy / move / swap: the witness entry goes with the map (its list is copied: CallbackList's copy, C10) */
-#define WMAP_CTOR_COPY(d, s) do { (d)->has = (s)->has; (d)->w = (s)->w; } while (0)
+/* (a copied map holds COPIES of the callback lists: new list objects - ghost identity CLT.opaque - whose handles are
+ * not the originals'; std::map's own copy assignment does nothing on self-assignment) */
+#define WMAP_INIT_LOCAL(m) do { (m)->has = 0; (m)->guard = NULL; } while (0)
+#define WMAP_CTOR_COPY(d, s) do { (d)->has = (s)->has; (d)->w = (s)->w; (d)->w.second.opaque = nondet_int(); } while (0)
 #define WMAP_CTOR_MOVE(d, s) do { (d)->has = (s)->has; (d)->w = (s)->w; (s)->has = 0; } while (0)
-#define WMAP_ASSIGN_COPY(d, s) do { _Bool __h = (s)->has; WPair __w = (s)->w; (d)->has = __h; (d)->w = __w; } while (0)
+#define WMAP_ASSIGN_COPY(d, s) do { if ((d) != (s)) { _Bool __h = (s)->has; WPair __w = (s)->w; (d)->has = __h; (d)->w = __w; (d)->w.second.opaque = nondet_int(); } } while (0)
 #define WMAP_ASSIGN_MOVE(d, s) do { _Bool __h = (s)->has; WPair __w = (s)->w; (s)->has = nondet_bool() && (d) == (s) ? __h : 0; (d)->has = __h; (d)->w = __w; } while (0)
 #define WMAP_SWAP(a, b) do { _Bool __h = (a)->has; WPair __w = (a)->w; (a)->has = (b)->has; (a)->w = (b)->w; (b)->has = __h; (b)->w = __w; } while (0)
 #define WMAP_DTOR(m) ((void)0)
@@ -249,7 +252,8 @@ static inline void dd_log(int key, int arg) { g_dd_n++; g_dd_key = key; g_dd_arg
 #define CONTRACT_ED_assign_copy \
   __CPROVER_requires(__CPROVER_is_fresh(self, sizeof(ED)) && (__CPROVER_pointer_equals(other, self) || __CPROVER_is_fresh(other, sizeof(ED)))) \
   __CPROVER_assigns(self->eventCallbackListMap.has, self->eventCallbackListMap.w) \
-  __CPROVER_ensures(HAS(self) == __CPROVER_old(HAS(other)) && HAS(other) == __CPROVER_old(HAS(other)) && __CPROVER_return_value == self)
+  __CPROVER_ensures(HAS(self) == __CPROVER_old(HAS(other)) && HAS(other) == __CPROVER_old(HAS(other)) && __CPROVER_return_value == self) \
+  __CPROVER_ensures(other == self ==> self->eventCallbackListMap.w.second.opaque == __CPROVER_old(self->eventCallbackListMap.w.second.opaque))   /* assignment from itself changes nothing: the same list objects, the same handles */
 #define CONTRACT_ED_assign_move \
   __CPROVER_requires(__CPROVER_is_fresh(self, sizeof(ED)) && (__CPROVER_pointer_equals(other, self) || __CPROVER_is_fresh(other, sizeof(ED)))) \
   __CPROVER_assigns(self->eventCallbackListMap.has, self->eventCallbackListMap.w, other->eventCallbackListMap.has) \
